@@ -234,9 +234,28 @@ def oracle_accumulation(case):
             if not (rel(v1, v2, 1e-10) and rel(v2, v3, 1e-10)):
                 fails.append({'what': 'end time given to the Coalescent, to the call, or as accumulation point disagree',
                               'dist': dist, 'k': k, 'T': T, 'on_object': v1, 'on_call': v2, 'accumulate': v3})
+    # grid independence: every value of an evenly spaced grid (epoch boundaries on grid points) equals the value
+    # obtained for that time alone
+    for grid in case.get('grids', []):
+        for dist in ('tree_height', 'total_branch_length'):
+            g = getattr(a, dist).accumulate(1, grid, center=False)
+            alone = [float(getattr(build.coalescent(spec), dist).accumulate(1, [t], center=False)[0]) for t in grid]
+            n += 1
+            if not relv(g, alone, 1e-9):
+                fails.append({'what': 'a value on an evenly spaced grid differs from the value computed for that time alone',
+                              'dist': dist, 'grid': grid, 'on_grid': np.asarray(g).tolist(), 'alone': alone})
     # additivity of first moments over adjacent windows
+    for a_, b_ in [case['window']] + case.get('windows', []):
+      for dist in ('tree_height', 'total_branch_length'):
+        m0a = getattr(a, dist).moment(1, end_time=a_)
+        mab = getattr(a, dist).moment(1, start_time=a_, end_time=b_) if a_ > 0 else getattr(a, dist).moment(1, end_time=b_) - m0a
+        m0b = getattr(a, dist).moment(1, end_time=b_)
+        n += 1
+        if not rel(m0a + mab, m0b, 1e-9):
+            fails.append({'what': 'first moments are not additive over adjacent windows', 'dist': dist, 'a': a_, 'b': b_,
+                          'm[0,a]': m0a, 'm[a,b]': mab, 'm[0,b]': m0b})
     a_, b_ = case['window']
-    for dist in ('tree_height', 'total_branch_length'):
+    for dist in ():
         m0a = getattr(a, dist).moment(1, end_time=a_)
         mab = getattr(a, dist).moment(1, start_time=a_, end_time=b_) if a_ > 0 else getattr(a, dist).moment(1, end_time=b_) - m0a
         m0b = getattr(a, dist).moment(1, end_time=b_)
@@ -459,6 +478,12 @@ def oracle_routes(case):
     checks.append(('end time on object vs call', obj.tree_height.mean, d.moment(1, end_time=T), 1e-12))
     checks.append(('end time: Coalescent.moment', c.moment(1, end_time=T), d.moment(1, end_time=T), 1e-12))
     checks.append(('accumulate route', float(c.accumulate(1, [T])[0]), d.moment(1, end_time=T), 1e-12))
+    # an end time on the call overrides the one on the object, in both directions
+    for T0 in (T / 2, 2 * T + 0.25):
+        o0 = build.coalescent(dict(spec, end_time=T0))
+        checks.append((f'call end time {T} on an object built with end time {T0}: Coalescent.moment', o0.moment(1, end_time=T), d.moment(1, end_time=T), 1e-12))
+        checks.append((f'call end time {T} on an object built with end time {T0}: tree_height.moment(2)', o0.tree_height.moment(2, end_time=T), d.moment(2, end_time=T), 1e-10))
+        checks.append((f'call end time {T} on an object built with end time {T0}: total_branch_length.moment', o0.total_branch_length.moment(1, end_time=T), L.moment(1, end_time=T), 1e-12))
     # reward tuples
     rs = [mk_reward(r) for r in case['rewards']]
     k = len(rs)
